@@ -8,7 +8,7 @@ import (
 
 // C12: Close ends everything promptly and for good (hubs and queue).
 
-// verif: replay=schedule unwind=8 cover=closed-while-parked bounds="TellHub: 1..2 goroutines in Receive with a never-cancelled context, one closer (nil or non-nil reason), every interleaving at channel/once operations; then a later Receive and a repeated Close"
+// verif: replay=schedule unwind=8 preempt=4/6 cover=closed-while-parked bounds="TellHub: 1..2 goroutines in Receive with a never-cancelled context, one closer (nil or non-nil reason), interleavings at channel/once operations and right after a close that woke someone, at most 4 (quick) / 6 (thorough) preemptions; then a later Receive and a repeated Close"
 func VH_C12_tellHubClose() bool {
 	h := NewTellHub[vAddr]()
 	n := vInt(1, 2)
@@ -46,7 +46,7 @@ func VH_C12_tellHubClose() bool {
 	return true
 }
 
-// verif: replay=schedule unwind=8 cover=closed-while-parked bounds="AskHub: 1..2 goroutines in ServeAsk with a never-cancelled context, one closer (Close() or CloseWithError(reason)), every interleaving; then a later ServeAsk/Deliver and a repeated Close"
+// verif: replay=schedule unwind=8 preempt=4/6 cover=closed-while-parked bounds="AskHub: 1..2 goroutines in ServeAsk with a never-cancelled context, one closer (Close() or CloseWithError(reason)), at most 4 (quick) / 6 (thorough) preemptions; then a later ServeAsk/Deliver and a repeated Close"
 func VH_C12_askHubClose() bool {
 	h := NewAskHub[vAddr]()
 	n := vInt(1, 2)
